@@ -3,9 +3,11 @@ package sdkapi
 import (
 	"bytes"
 	"context"
+	"encoding/json"
 	"fmt"
 	"os"
 	"os/exec"
+	"path/filepath"
 	"sort"
 	"strconv"
 	"strings"
@@ -330,6 +332,289 @@ func TestC26Batch(t *testing.T) {
 			return sb.String()
 		},
 		Sample: func(b C26Batch) any { return map[string]any{"cases": len(b.Cases), "first": c26Sample(b.Cases[0])} },
+	})
+}
+
+// --- register facet: pattern registration with extreme numbers, run in a child process ---
+//
+// RegisterSwamp stores seconds / bytes that the engine later turns into durations on goroutines of its
+// own (write ticker, idle-close listener). A failure there is an unrecovered panic that kills the whole
+// process, so these sequences run in a child process (this test binary re-executed): the parent
+// classifies a death by the child's output and attributes it to the scenario that was running.
+
+type C26RegBatch struct {
+	Cases []C26Scenario `json:"cases"`
+}
+
+func genC26Reg(ex c26Excl, ms c26Methods) func(t *rapid.T) C26Scenario {
+	return func(t *rapid.T) C26Scenario {
+		s := C26Scenario{Target: "reg", Prefill: true}
+		add := func(rpc string, i int, edit func(m protoreflect.Message)) {
+			msg, marks := genC26Request(t, ms, rpc, ex, c26Reg(), itoa(i))
+			if edit != nil {
+				edit(msg.ProtoReflect())
+			}
+			b, err := proto.MarshalOptions{AllowPartial: true, Deterministic: true}.Marshal(msg)
+			if err != nil {
+				t.Fatalf("marshal %s: %v", rpc, err)
+			}
+			st := C26Step{RPC: rpc, Req: b, Route: rapid.SampledFrom([]string{"direct", "grpc"}).Draw(t, "route"), Desc: describe(msg)}
+			for m := range marks {
+				st.Marks = append(st.Marks, m)
+			}
+			sort.Strings(st.Marks)
+			s.Steps = append(s.Steps, st)
+		}
+		inMem := rapid.IntRange(0, 5).Draw(t, "inmem") == 0
+		add("RegisterSwamp", 0, func(m protoreflect.Message) {
+			fs := m.Descriptor().Fields()
+			m.Set(fs.ByName("IsInMemorySwamp"), protoreflect.ValueOfBool(inMem))
+			if !m.Has(fs.ByName("SwampPattern")) {
+				m.Set(fs.ByName("SwampPattern"), protoreflect.ValueOfString(cn("p", "*")))
+			}
+		})
+		n := rapid.IntRange(1, 3).Draw(t, "nfollow")
+		for i := 1; i <= n; i++ {
+			c := rapid.IntRange(0, 9).Draw(t, "followclass")
+			var rpc string
+			switch {
+			case c < 2:
+				rpc = rapid.SampledFrom([]string{"RegisterSwamp", "DeRegisterSwamp"}).Draw(t, "rereg")
+			case c < 6:
+				rpc = rapid.SampledFrom([]string{"Get", "GetAll", "Count", "IsKeyExist", "GetByIndex", "CompactSwamp", "IsSwampExist"}).Draw(t, "ro")
+			default:
+				rpc = rapid.SampledFrom(ms.names).Draw(t, "any")
+			}
+			add(rpc, i, nil)
+		}
+		return s
+	}
+}
+
+const c26RegChild = "register-batch"
+
+// c26RegChildMain is the child side: phase 1 runs the cases and stops gracefully, phase 2 restarts on the
+// same root (settings.json holds the registered patterns) and reads the sentinel and every case's swamp.
+func c26RegChildMain() {
+	var b C26RegBatch
+	raw, err := os.ReadFile(os.Getenv("VERIF_C26_CHILD_FILE"))
+	if err == nil {
+		err = json.Unmarshal(raw, &b)
+	}
+	root := os.Getenv("VERIF_C26_CHILD_ROOT")
+	phase := os.Getenv("VERIF_C26_CHILD_PHASE")
+	if err != nil || root == "" {
+		fmt.Println("CHILD-HARNESS-ERROR", err)
+		os.Exit(3)
+	}
+	say := func(f string, a ...any) { fmt.Printf("@@C26 "+f+"\n", a...); os.Stdout.Sync() }
+	e, err := newC26EnvAt(root, phase == "1")
+	if err != nil {
+		say("HARNESS-ERROR %v", err)
+		os.Exit(3)
+	}
+	e.keep = true
+	if phase == "1" {
+		for i, c := range b.Cases {
+			say("BEGIN %d", i)
+			o := e.runCase(c)
+			js, _ := json.Marshal(map[string]any{"fail": o.Fail, "shape": o.Shape, "nontrivial": o.NonTrivial, "classes": o.Classes})
+			say("END %d %s", i, js)
+			if o.Fail != "" {
+				break
+			}
+		}
+	} else {
+		say("BEGIN -1")
+		if f := e.checkSentinel(false); f != nil {
+			js, _ := json.Marshal(map[string]any{"fail": "after restart: " + f.Fail, "shape": f.Shape})
+			say("END -1 %s", js)
+		} else {
+			say("END -1 {}")
+			for i := range b.Cases {
+				say("BEGIN %d", i)
+				reg := strings.ReplaceAll(c26Reg(), c26Tok, fmt.Sprintf("n%dx", i+1))
+				_, _, f := e.readAll(swampRef{Island: rig.Island(reg), Name: reg, Canon: true})
+				o := map[string]any{}
+				if f != "" {
+					o = map[string]any{"fail": fmt.Sprintf("after restart swamp %s (covered by the pattern registered in case %d) cannot be read: %s", reg, i, f), "shape": "touched-unreadable"}
+				}
+				js, _ := json.Marshal(o)
+				say("END %d %s", i, js)
+			}
+		}
+	}
+	if e.r.Stop(pbt.Bound(c26StopTimeout)) {
+		say("STOPPED")
+	} else {
+		say("STOP-HANG")
+	}
+}
+
+type c26ChildReport struct {
+	begun, ended int
+	fails        map[int]map[string]any
+	stopped      bool
+	stopHang     bool
+	died         bool
+	timedOut     bool
+	deathLine    string
+	classes      []string
+	nontrivial   int
+}
+
+func c26RunRegChild(file, root, phase string) c26ChildReport {
+	rep := c26ChildReport{begun: -2, ended: -2, fails: map[int]map[string]any{}}
+	ctx, cancel := context.WithTimeout(context.Background(), pbt.Bound(150*time.Second))
+	defer cancel()
+	cmd := exec.CommandContext(ctx, os.Args[0], "-test.run", "^TestC26Register$", "-test.count", "1")
+	cmd.Env = append(os.Environ(), "VERIF_C26_CHILD="+c26RegChild, "VERIF_C26_CHILD_FILE="+file, "VERIF_C26_CHILD_ROOT="+root, "VERIF_C26_CHILD_PHASE="+phase, "VERIF_STATS_OUT=")
+	var buf bytes.Buffer
+	cmd.Stdout, cmd.Stderr = &buf, &buf
+	err := cmd.Run()
+	rep.timedOut = ctx.Err() != nil
+	out := buf.String()
+	for _, ln := range strings.Split(out, "\n") {
+		i := strings.Index(ln, "@@C26 ")
+		if i < 0 {
+			continue
+		}
+		f := strings.SplitN(strings.TrimSpace(ln[i+6:]), " ", 3)
+		switch f[0] {
+		case "BEGIN":
+			rep.begun, _ = strconv.Atoi(f[1])
+		case "END":
+			rep.ended, _ = strconv.Atoi(f[1])
+			var o map[string]any
+			if len(f) == 3 && json.Unmarshal([]byte(f[2]), &o) == nil {
+				if s, _ := o["fail"].(string); s != "" {
+					rep.fails[rep.ended] = o
+				}
+				if nt, _ := o["nontrivial"].(bool); nt {
+					rep.nontrivial++
+				}
+				if cl, ok := o["classes"].([]any); ok {
+					for _, c := range cl {
+						if cs, _ := c.(string); strings.HasPrefix(cs, "field:register") || strings.HasPrefix(cs, "result:") || cs == "readonly-victim-compared" || cs == "reload-compared" {
+							rep.classes = append(rep.classes, cs)
+						}
+					}
+				}
+			}
+		case "STOPPED":
+			rep.stopped = true
+		case "STOP-HANG":
+			rep.stopHang = true
+		}
+	}
+	if !rep.stopped && !rep.stopHang && len(rep.fails) == 0 {
+		rep.died = true
+		for _, ln := range strings.Split(out, "\n") {
+			if strings.HasPrefix(ln, "panic:") || strings.HasPrefix(ln, "fatal error:") {
+				rep.deathLine = ln
+				break
+			}
+		}
+		if rep.deathLine == "" {
+			rep.deathLine = fmt.Sprintf("exit: %v; last output: %s", err, tailStr(out, 300))
+		}
+		// the frame that identifies the goroutine
+		if j := strings.Index(out, rep.deathLine); j >= 0 {
+			for _, ln := range strings.Split(out[j:], "\n") {
+				if strings.Contains(ln, "/repo/") {
+					rep.deathLine += " @ " + strings.TrimSpace(ln)
+					break
+				}
+			}
+		}
+	}
+	return rep
+}
+
+func runC26RegBatch(b C26RegBatch) pbt.Outcome {
+	root, err := os.MkdirTemp("/dev/shm", "verif-c26reg-")
+	if err != nil {
+		return pbt.Failf("harness", "%v", err)
+	}
+	defer os.RemoveAll(root)
+	file := filepath.Join(root, "batch.json")
+	js, _ := json.Marshal(b)
+	if err := os.WriteFile(file, js, 0o644); err != nil {
+		return pbt.Failf("harness", "%v", err)
+	}
+	data := filepath.Join(root, "data")
+	os.MkdirAll(data, 0o755)
+	var out pbt.Outcome
+	for _, phase := range []string{"1", "2"} {
+		rep := c26RunRegChild(file, data, phase)
+		what := "while the cases ran"
+		if phase == "2" {
+			what = "after the restart on the same root (patterns reloaded from settings.json)"
+		}
+		cur := rep.begun
+		desc := ""
+		if cur >= 0 && cur < len(b.Cases) {
+			for _, st := range b.Cases[cur].Steps {
+				desc += " " + st.RPC + " " + st.Desc + ";"
+			}
+		}
+		for i, f := range rep.fails {
+			shape, _ := f["shape"].(string)
+			msg, _ := f["fail"].(string)
+			return pbt.Failf(shape, "register batch case %d %s: %s", i, what, msg)
+		}
+		if rep.timedOut {
+			return pbt.Failf("hang", "the server process did not finish %s (case %d:%s)", what, cur, desc)
+		}
+		if rep.died {
+			return pbt.Failf("process-crash", "the server process died %s, in case %d: %s — requests of that case:%s", what, cur, rep.deathLine, desc)
+		}
+		if rep.stopHang {
+			return pbt.Failf("stop-hang", "graceful stop did not finish %s", what)
+		}
+		if phase == "1" {
+			out.NonTrivial = rep.nontrivial >= 1
+			out.Classes = append(out.Classes, rep.classes...)
+		}
+	}
+	out.Classes = append(out.Classes, "restart-served")
+	return out
+}
+
+func TestC26Register(t *testing.T) {
+	if os.Getenv("VERIF_C26_CHILD") == c26RegChild {
+		c26RegChildMain()
+		return
+	}
+	ex := c26Exclusions("register")
+	ms := c26AllMethods()
+	one := genC26Reg(ex, ms)
+	gen := func(t *rapid.T) C26RegBatch {
+		n := rapid.IntRange(20, 40).Draw(t, "ncases")
+		var b C26RegBatch
+		for i := 0; i < n; i++ {
+			b.Cases = append(b.Cases, one(t))
+		}
+		return b
+	}
+	pbt.Main(t, pbt.Spec[C26RegBatch]{
+		ID: "C26", Facet: "register",
+		Rule: "20..40 sequences per child process: RegisterSwamp (structurally generated; CloseAfterIdle / WriteInterval / MaxFileSize from {0,1,2,5,3600,-1,MinInt64,MaxInt64,MaxInt64-1," +
+			"9223372036..9223372038 (seconds->ns overflow boundary), 18446744073/4 (wraps to a small positive), 13835058056, 2^62, 2^32, …}, in-memory 1/6) on a pattern covering a fresh swamp, " +
+			"then a valid Set of known records into that swamp, then 1..3 further requests on it (read-only RPCs, any RPC, re-/de-registration); per-request and reload oracle of the main facet, " +
+			"records of the Set must be intact after read-only follow-ups; the child then stops gracefully and a second child restarts on the same root (patterns come back from settings.json) and must " +
+			"serve the sentinel and every case's swamp. A child that dies (unrecovered panic on an engine goroutine) = shape process-crash, attributed to the running case; " +
+			"non-trivial = >= 1 case with a boundary field whose swamp was reached",
+		Quick: 2, Thorough: 200,
+		Gen: gen, Run: runC26RegBatch,
+		Canon: func(b C26RegBatch) string {
+			var sb strings.Builder
+			for _, c := range b.Cases {
+				sb.WriteString(c26Canon(c) + "#")
+			}
+			return sb.String()
+		},
+		Sample: func(b C26RegBatch) any { return map[string]any{"cases": len(b.Cases), "first": c26Sample(b.Cases[0])} },
 	})
 }
 
